@@ -826,6 +826,8 @@ theorem emitCols_true (force : Bool) (ps : Params) :
 /-- what makes a list of keyed columns safe to put in a class body: no column is called `__tablename__` / `__table__` -/
 def plainNames (names : List Str) : Prop := ∀ k ∈ names, k ≠ c!"__tablename__" ∧ k ≠ c!"__table__"
 
+instance (names : List Str) : Decidable (plainNames names) := by unfold plainNames; infer_instance
+
 theorem mapE_stmtColumn (cols : List (Str × ColumnCall)) :
     mapE stmtColumn (cols.map (fun kc => Stmt.assignCol kc.1 kc.2)) = .ok (cols.map (fun kc => mergeName kc.1 kc.2)) := by
   induction cols with
@@ -929,5 +931,243 @@ theorem variants_agree_aux (force hasDoc : Bool) (ir : IR) (hk : plainNames (key
         [Stmt.funcDef c!"__repr__", Stmt.funcDef c!"create_from_attr"]
       rw [this, List.map_map]
       rfl
+
+/-! ### string facts for clean descriptions -/
+
+theorem rstripChars_of_getLast (s : Str) (cs : List Char) (h : ∀ c, s.getLast? = some c → cs.contains c = false) :
+    rstripChars s cs = s := by
+  unfold rstripChars
+  cases hs : s.reverse with
+  | nil => have : s = [] := by simpa using hs
+           subst this; rfl
+  | cons c rest =>
+    have hl : s.getLast? = some c := by
+      rw [List.getLast?_eq_head?_reverse, hs]; rfl
+    have hc := h c hl
+    rw [List.dropWhile_cons_of_neg (by rw [hc]; exact Bool.false_ne_true)]
+    rw [← hs, List.reverse_reverse]
+
+theorem lstrip_of_head (s : Str) (h : ∀ c, s.head? = some c → isSpaceC c = false) : lstrip s = s := by
+  unfold lstrip
+  cases s with
+  | nil => rfl
+  | cons c cs => rw [List.dropWhile_cons_of_neg (by simp [h c rfl])]
+
+theorem findFrom_single (x : Char) (pre rest : Str) (i : Nat) (h : x ∉ pre) :
+    findFrom [x] (pre ++ x :: rest) i = some (i + pre.length) := by
+  induction pre generalizing i with
+  | nil => simp [findFrom, List.isPrefixOf]
+  | cons c cs ih =>
+    have hc : c ≠ x := fun e => h (by simp [e])
+    have hcs : x ∉ cs := fun e => h (by simp [e])
+    simp only [List.cons_append, findFrom, List.isPrefixOf]
+    have : (x == c) = false := by simp [Ne.symm hc]
+    simp only [this, Bool.false_and, Bool.false_eq_true, if_false]
+    rw [ih (i + 1) hcs]
+    simp only [List.length_cons]
+    congr 1; omega
+
+theorem clampIdx_nat (n a : Nat) (h : a ≤ n) : clampIdx n (a : Int) = a := by
+  unfold clampIdx
+  have h1 : ¬ ((a : Int) < 0) := by omega
+  have h2 : ¬ ((a : Int) > (n : Int)) := by omega
+  simp only [h1, if_false, h2]
+  simp
+
+theorem slice_nat {α : Type} (l : List α) (a b : Nat) (ha : a ≤ l.length) (hb : b ≤ l.length) :
+    slice l (some (a : Int)) (some (b : Int)) = (l.drop a).take (b - a) := by
+  unfold slice
+  simp only [clampIdx_nat _ _ ha, clampIdx_nat _ _ hb]
+
+theorem slice_from {α : Type} (l : List α) (a : Nat) (ha : a ≤ l.length) :
+    slice l (some (a : Int)) none = l.drop a := by
+  unfold slice
+  simp only [clampIdx_nat _ _ ha]
+  apply List.take_of_length_le
+  simp
+
+/-- a marker in front of a description -/
+inductive Marker
+  | none
+  | pk
+  | fk (v : Str)
+
+/-- the description as the IR writes it -/
+def renderDoc : Marker → Str → Str
+  | .none, t => t
+  | .pk, t => c!"[PK] " ++ t
+  | .fk v, t => c!"[FK(" ++ (v ++ (c!")] " ++ t))
+
+/-- a description text the round trip keeps verbatim -/
+structure CleanText (t : Str) : Prop where
+  ne : t ≠ []
+  head : ∀ c, t.head? = some c → isSpaceC c = false
+  last : ∀ c, t.getLast? = some c → ['.'].contains c = false
+  unquoted : setValueStr t = t
+
+theorem splitDoc_pk_clean (t : Str) (h : CleanText t) :
+    splitDoc (renderDoc .pk t) = { pk := true, fk := none, text := t } := by
+  unfold splitDoc renderDoc
+  have h1 : startsWith (c!"[PK] " ++ t) c!"[PK]" = true := by simp [startsWith, List.isPrefixOf]
+  simp only [h1, if_true]
+  have : (c!"[PK] " ++ t).drop 4 = ' ' :: t := by simp
+  rw [this]
+  have : lstrip (' ' :: t) = lstrip t := by
+    unfold lstrip; rw [List.dropWhile_cons_of_pos (by decide)]
+  rw [this, lstrip_of_head t h.head]
+
+theorem splitDoc_fk_clean (v t : Str) (hv : ']' ∉ v) (h : CleanText t) :
+    splitDoc (renderDoc (.fk v) t) = { pk := false, fk := some v, text := t } := by
+  unfold splitDoc renderDoc
+  have h1 : startsWith (c!"[FK(" ++ (v ++ (c!")] " ++ t))) c!"[PK]" = false := by simp [startsWith, List.isPrefixOf]
+  have h2 : startsWith (c!"[FK(" ++ (v ++ (c!")] " ++ t))) c!"[FK" = true := by simp [startsWith, List.isPrefixOf]
+  simp only [h1, h2, Bool.false_eq_true, if_false, if_true]
+  have hd : c!"[FK(" ++ (v ++ (c!")] " ++ t)) = (c!"[FK(" ++ (v ++ [')'])) ++ ']' :: (' ' :: t) := by simp
+  have hnot : ']' ∉ c!"[FK(" ++ (v ++ [')']) := by
+    simp only [List.mem_append, List.mem_cons, List.not_mem_nil, or_false, not_or]
+    exact ⟨by decide, hv, by decide⟩
+  have hfind : findI (c!"[FK(" ++ (v ++ (c!")] " ++ t))) [']'] = ((v.length + 5 : Nat) : Int) := by
+    unfold findI find
+    rw [hd, findFrom_single ']' _ _ 0 hnot]
+    simp only [List.length_append, List.length_cons, List.length_nil]
+    congr 1; omega
+  rw [hfind]
+  have hlen : (c!"[FK(" ++ (v ++ (c!")] " ++ t))).length = v.length + 7 + t.length := by
+    simp only [List.length_append, List.length_cons, List.length_nil]; omega
+  have e1 : ((v.length + 5 : Nat) : Int) + 1 - 2 = ((v.length + 4 : Nat) : Int) := by omega
+  have e2 : ((v.length + 5 : Nat) : Int) + 1 = ((v.length + 6 : Nat) : Int) := by omega
+  have e4 : (4 : Int) = ((4 : Nat) : Int) := rfl
+  rw [e1, e2, e4, slice_nat _ 4 (v.length + 4) (by omega) (by omega), slice_from _ (v.length + 6) (by omega)]
+  have d1 : (c!"[FK(" ++ (v ++ (c!")] " ++ t))).drop 4 = v ++ (c!")] " ++ t) := by simp
+  have d2 : (c!"[FK(" ++ (v ++ (c!")] " ++ t))).drop (v.length + 6) = ' ' :: t := by
+    have : c!"[FK(" ++ (v ++ (c!")] " ++ t)) = (c!"[FK(" ++ (v ++ c!")]")) ++ (' ' :: t) := by simp
+    rw [this]
+    apply List.drop_left'
+    simp only [List.length_append, List.length_cons, List.length_nil]; omega
+  rw [d1, d2]
+  have : v.length + 4 - 4 = v.length := by omega
+  rw [this, List.take_left']
+  · have : lstrip (' ' :: t) = lstrip t := by
+      unfold lstrip; rw [List.dropWhile_cons_of_pos (by decide)]
+    rw [this, lstrip_of_head t h.head]
+  · rfl
+
+
+theorem normText_clean (t : Str) (h : CleanText t) : normText t = some t := by
+  unfold normText
+  simp only [rstripChars_of_getLast t ['.'] h.last]
+  have : t.isEmpty = false := by
+    cases ht : t with
+    | nil => exact absurd ht h.ne
+    | cons _ _ => rfl
+  simp [this, h.unquoted]
+
+/-- side condition per marker: a plain description does not itself start with a marker; a foreign-key target has no
+    `]` and is not wrapped in quotes -/
+def MarkerOk : Marker → Str → Prop
+  | .none, t => startsWith t c!"[PK]" = false ∧ startsWith t c!"[FK" = false
+  | .pk, _ => True
+  | .fk v, _ => ']' ∉ v ∧ setValueStr v = v
+
+theorem splitDoc_plain (t : Str) (h1 : startsWith t c!"[PK]" = false) (h2 : startsWith t c!"[FK" = false) :
+    splitDoc t = { pk := false, fk := none, text := t } := by
+  unfold splitDoc
+  simp [h1, h2]
+
+theorem normDoc_clean_aux (name : Str) (m : Marker) (t : Str) (hasDefault : Bool) (ht : CleanText t) (hm : MarkerOk m t) :
+    normDoc name (some (renderDoc m t)) hasDefault =
+      some (renderDoc m t ++ (if hasDefault && !endsWith name c!"kwargs" then ['.'] else [])) := by
+  have hemp : t.isEmpty = false := by
+    cases h : t with
+    | nil => exact absurd h ht.ne
+    | cons _ _ => rfl
+  unfold normDoc
+  simp only [Option.getD_some]
+  cases m with
+  | none =>
+    rw [show renderDoc .none t = t from rfl, splitDoc_plain t hm.1 hm.2]
+    simp only [normText_clean t ht, foldDoc, Option.map_none, Bool.false_eq_true, if_false, addDot]
+    split <;> simp
+  | pk =>
+    rw [splitDoc_pk_clean t ht]
+    simp only [normText_clean t ht, foldDoc, Option.map_none, if_true, foldMarker, hemp, Bool.false_eq_true, if_false, addDot, renderDoc]
+    split <;> simp
+  | fk v =>
+    rw [splitDoc_fk_clean v t hm.1 ht]
+    simp only [normText_clean t ht, foldDoc, Option.map_some, hm.2, Bool.false_eq_true, if_false, foldMarker, hemp, addDot, renderDoc]
+    split <;> simp
+
+
+/-- when does `ensure_has_primary_key` leave every input column alone (apart from marking one as `[PK]`)?
+    there is no column called `id`, or a `[PK]` marker exists, or the candidate rule applies -/
+def KeepsColumns (force : Bool) (ps : Params) : Prop :=
+  c!"id" ∉ keys ps ∨ ps.any (fun kv => docHasPK kv.2) = true ∨ (force = false ∧ ((keys ps).filter isCandidate).length = 1)
+
+theorem ensurePK_keeps_aux (force : Bool) (ps : Params) (h : KeepsColumns force ps) :
+    ensurePK force ps = ps ∨ (∃ c, c ∈ keys ps ∧ ensurePK force ps = modify ps c markPK) ∨
+      (c!"id" ∉ keys ps ∧ ensurePK force ps = ps ++ [(c!"id", idParam)]) := by
+  by_cases hany : ps.any (fun kv => docHasPK kv.2) = true
+  · left; unfold ensurePK; rw [if_pos hany]
+  · rcases h with h | h | ⟨hf, hl⟩
+    · rcases ensurePK_cases force ps with e | e | e
+      · exact Or.inl e
+      · exact Or.inr (Or.inl e)
+      · right; right
+        refine ⟨h, ?_⟩
+        rw [e]; unfold set
+        have : has ps c!"id" = false := by
+          cases hh : has ps c!"id" with
+          | false => rfl
+          | true => exact absurd ((has_iff_mem_keys _ _).mp hh) h
+        simp [this]
+    · exact absurd h hany
+    · right; left
+      subst hf
+      match hc : (keys ps).filter isCandidate, hl with
+      | [c], _ =>
+        have hm : c ∈ (keys ps).filter isCandidate := by rw [hc]; exact List.mem_singleton.mpr rfl
+        refine ⟨c, (List.mem_filter.mp hm).1, ?_⟩
+        unfold ensurePK
+        rw [if_neg hany]
+        simp only [hc]
+
+
+/-! ### `sqlalchemy_table_to_class` -/
+
+theorem mapE_columnStmt (cols : List (Str × ColumnCall)) (hn : ∀ kc ∈ cols, setValueStr kc.1 = kc.1) :
+    mapE columnStmt (cols.map (fun kc => mergeName kc.1 kc.2)) = .ok (cols.map (fun kc => Stmt.assignCol kc.1 kc.2)) := by
+  induction cols with
+  | nil => rfl
+  | cons a as ih =>
+    simp only [List.map_cons]
+    unfold mapE
+    have ha := hn a List.mem_cons_self
+    have : columnStmt (mergeName a.1 a.2) = .ok (Stmt.assignCol a.1 a.2) := by
+      simp only [columnStmt, mergeName, setValue, ha]
+    rw [this, ih (fun kc hkc => hn kc (List.mem_cons_of_mem _ hkc))]
+
+theorem parseClass_plain (name nm : Str) (cols : List (Str × ColumnCall)) (h : plainNames (cols.map (·.1))) :
+    parseClass { name := name, body := Stmt.assignStr c!"__tablename__" nm :: cols.map (fun kc => Stmt.assignCol kc.1 kc.2) } =
+      parseTableCall { tname := setValueStr nm, metaName := c!"metadata_obj", cols := cols.map (fun kc => mergeName kc.1 kc.2) } := by
+  have h1 := find_table_none cols h
+  have h2 := find_tablename_none cols h
+  have hne : (c!"__tablename__" == c!"__table__") = false := by decide
+  have e1 : ∀ t : Str, (some c!"__tablename__" == some t) = (c!"__tablename__" == t) := fun t => by simp
+  have ha : (Stmt.assignStr c!"__tablename__" nm).target? = some c!"__tablename__" := rfl
+  have c3 : isColumnStmt (Stmt.assignStr c!"__tablename__" nm) = false := by
+    simp [isColumnStmt, Stmt.target?]
+  unfold parseClass classToTable
+  simp only [List.find?_cons, List.filter_cons, ha, c3, h1, h2, e1, hne, beq_self_eq_true, mapE_stmtColumn,
+    Bool.false_eq_true, if_false]
+
+/-- turning a table whose columns are called by plain names into a class and parsing that class gives the parse of the table -/
+theorem tableToClass_parse (target t m : Str) (cols : List (Str × ColumnCall)) (hplain : plainNames (cols.map (·.1)))
+    (hn : ∀ kc ∈ cols, setValueStr kc.1 = kc.1) (ht : setValueStr t = t) :
+    andThen (tableToClass (target, { tname := t, metaName := m, cols := cols.map (fun kc => mergeName kc.1 kc.2) })) parseClass =
+      parseTableCall { tname := t, metaName := m, cols := cols.map (fun kc => mergeName kc.1 kc.2) } := by
+  unfold tableToClass
+  simp only [mapE_columnStmt cols hn, andThen]
+  rw [parseClass_plain _ _ cols hplain, ht, ht]
+  exact parseTableCall_meta { tname := t, metaName := m, cols := cols.map (fun kc => mergeName kc.1 kc.2) } _
 
 end Sql
